@@ -51,6 +51,9 @@ structure Scan where
   ffPre : List (Nat × List Nat) := []
   bad : List String := []        -- violated clauses
   f22 : Bool := false            -- an early ForceFlush return during Shutdown with something missing [F22]
+  sdPres : List (List Nat) := [] -- the spans ended before each Shutdown call, in call order
+  sdOkRets : Nat := 0            -- number of Shutdown calls that have returned nil
+  f41 : Bool := false            -- a later Shutdown call returned nil with only late spans of its own pre set missing [F41]
 
 def scanStep (blocking : Bool) (dropped : Nat) (s : Scan) : Ev → Scan
   | .ended id => { s with ended := id :: s.ended }
@@ -70,12 +73,23 @@ def scanStep (blocking : Bool) (dropped : Nat) (s : Scan) : Ev → Scan
       if delivered blocking pre s.batches dropped then s
       else if s.sdCalled then { s with f22 := true }     -- ForceFlush raced a Shutdown that had been called
       else { s with bad := "S5:forceflush" :: s.bad }
-  | .sdCalled => if s.sdCalled then s else { s with sdCalled := true, sdPre := s.ended }
+  | .sdCalled =>
+    let s := { s with sdPres := s.sdPres ++ [s.ended] }
+    if s.sdCalled then s else { s with sdCalled := true, sdPre := s.ended }
   | .sdReturned ok =>
     if !ok then s else
-    let s := { s with sdReturnedOk := true }
+    -- the events carry no caller identity: the j-th nil return is judged with the pre set of the j-th call. Among
+    -- the calls that have returned nil by then at least one was called no earlier than the j-th call, so the
+    -- demand is never more than what some returned call owes (and exact when calls return in call order).
+    let own := s.sdPres[s.sdOkRets]?
+    let s := { s with sdReturnedOk := true, sdOkRets := s.sdOkRets + 1 }
     if s.inExport then { s with bad := "S3:shutdown-returned-during-export" :: s.bad }
-    else if delivered blocking s.sdPre s.batches dropped then s
+    else if delivered blocking s.sdPre s.batches dropped then
+      -- everything ended before the FIRST Shutdown call is delivered; now the call's own pre set (the statement
+      -- as written): what can still be missing ended after the first `sdCalled` — the late-span race F41
+      match own with
+      | none => { s with bad := "shutdown-return-without-call" :: s.bad }
+      | some pre => if delivered blocking pre s.batches dropped then s else { s with f41 := true }
     else { s with bad := "S5:shutdown" :: s.bad }
   | .expShutdownStart =>
     let s := if s.inExport then { s with bad := "S3:exporter-shutdown-during-export" :: s.bad } else s
@@ -83,7 +97,8 @@ def scanStep (blocking : Bool) (dropped : Nat) (s : Scan) : Ev → Scan
   | .expShutdownEnd => { s with inExpShutdown := false, expShutdownDone := true }
   | .hang => { s with bad := "hang" :: s.bad }
 
-/-- the whole-history oracle: returns the violated clauses (empty = ok) and the F22 flag -/
+/-- the whole-history oracle: returns the violated clauses (empty = ok) and the F22 flag; the F41 flag of the same
+scan is `histF41` -/
 def histCheck (maxB : Nat) (blocking : Bool) (dropped : Nat) (allEnded allUnsampled : List Nat) (h : List Ev) :
     List String × Bool :=
   let s := h.foldl (scanStep blocking dropped) {}
@@ -93,6 +108,11 @@ def histCheck (maxB : Nat) (blocking : Bool) (dropped : Nat) (allEnded allUnsamp
   let bad := if onlyEnded s.batches allEnded then bad else "S6:unknown-span-exported" :: bad
   let bad := if unsampledNotExported s.batches allUnsampled then bad else "S6:unsampled-exported" :: bad
   (bad, s.f22)
+
+/-- the F41 flag of the oracle: some Shutdown call other than the first returned nil while spans of its own pre set
+were missing, all spans ended before the first Shutdown call being delivered (known finding F41) -/
+def histF41 (blocking : Bool) (dropped : Nat) (h : List Ev) : Bool :=
+  (h.foldl (scanStep blocking dropped) {}).f41
 
 /-- the ids of the `ended` events of a history -/
 def endedIds (h : List Ev) : List Nat := h.filterMap fun | .ended id => some id | _ => none
